@@ -96,6 +96,15 @@ theorem running_st_fresh {s : State} (hS : InvS s) {st : Nat} {tg : TaskId} {r :
   | false => rfl
   | true => have := hS.dead st tg hl; simp only [occ] at this; omega
 
+theorem sigAdj_le_stTok (pc : SPc) (tasks : List Kind) (c : TaskId) : sigAdj pc tasks c ≤ stTok tasks c := by
+  unfold sigAdj
+  split
+  · split
+    · rename_i hl
+      exact countP_pos_of (fun k : Kind => k == Kind.st c false) hl (by simp)
+    · exact Nat.zero_le _
+  · exact Nat.zero_le _
+
 /-- nothing refers to an id that has not been allocated yet -/
 theorem tok_fresh {s : State} (hK : InvK s) :
     s.incoming.count s.tasks.length = 0 ∧ s.hubTasks.count s.tasks.length = 0 ∧ hTokC s.h s.tasks.length = 0 ∧
@@ -285,5 +294,136 @@ theorem stepS_L {s s' : State} (hK : InvK s) (hC : InvC s) (hS : InvS s) (hW : I
       | exact hcph
       | (intro hq; have := hoff _ hpc; rw [this] at hq; cases hq)
       | (intro hq; obtain ⟨c, hc, _⟩ := hcph hq; rw [hC.crS ⟨_, hpc⟩] at hc; cases hc)
+
+theorem stepH_L {s s' : State} (hK : InvK s) (hC : InvC s) (hW : InvW s) (h : InvL s)
+    (hs : stepH s = some s') : InvL s' := by
+  have hsok := hK.href
+  obtain ⟨hone, hcps, hcph⟩ := h
+  have hnoS : ∀ q, s.h = .hub q → cpS s.s = false := by
+    intro q hq
+    cases ht : s.threaded with
+    | false => have := (hW.inl ht).1; rw [hq] at this; cases this
+    | true =>
+      cases hp : s.s with
+      | hub q' => exact absurd hp (hW.thr ht q')
+      | _ => rfl
+  refine ⟨?_, ?_, ?_⟩
+  · h_cases hs s hpc
+    all_goals simp only [hpc, hOk, hubOk] at hsok
+    all_goals intro c hc
+    all_goals first
+      | (have h1 := hone c hc
+         simp only [tok, hTokC, hpc] at h1 ⊢
+         exact h1)
+      | (have h1 := hone c hc
+         have hsa := sigAdj_le_stTok s.s s.tasks c
+         have e := eq_clt hC hc hsok
+         subst e
+         simp only [tok, hTokC, hpc, count_append_self, ↓reduceIte, beq_self_eq_true, b2n] at h1 ⊢
+         first
+           | omega
+           | (have := count_pos_of_mem (by assumption : _ ∈ s.ready); omega))
+      | skip
+    · -- select reports the CallLaterTask's pinger
+      rename_i hq
+      have h1 := hone c hc
+      have e := Option.some.inj ((cltReadable_some hq).symm.trans hc)
+      subst e
+      have hm := count_erase_mem (cltReadable_mem hq)
+      simp only [tok, hTokC, hpc, ↓reduceIte] at h1 ⊢
+      omega
+    · rename_i cp _ hcp _ c' hq
+      have h1 := hone c hc
+      have e := Option.some.inj (hq.symm.trans hc)
+      subst e
+      obtain ⟨c0, hc0, hm0⟩ := hcph (by rw [hpc]; exact hcp)
+      have e0 := Option.some.inj (hc0.symm.trans hc)
+      subst e0
+      have hm := count_erase_mem hm0
+      simp only [tok, hTokC, hpc, ↓reduceIte] at h1 ⊢
+      omega
+    · rename_i cp _ y rest hq hm
+      exfalso
+      have hcl : s.cltTask = some c := hc
+      have h1 := hone c hcl
+      have e := eq_clt hC hcl (hK.inc y (head_mem hq))
+      subst e
+      have := count_pos_of_mem (head_mem hq)
+      have := count_pos_of_mem hm
+      simp only [tok] at h1
+      have hsa := sigAdj_le_stTok s.s s.tasks y
+      omega
+    · rename_i cp _ y rest hq hm
+      have h1 := hone c hc
+      have e := eq_clt hC hc (hK.inc y (head_mem hq))
+      subst e
+      have hp := pop_count y hq
+      simp only [tok, hTokC, hpc, count_append_self, ↓reduceIte, beq_self_eq_true, b2n] at h1 ⊢
+      rw [hp] at h1
+      simp only [↓reduceIte] at h1
+      omega
+  · h_cases hs s hpc
+    all_goals (intro hq; have := hnoS _ hpc; rw [this] at hq; cases hq)
+  · h_cases hs s hpc
+    all_goals intro hq
+    all_goals first
+      | (simp only [cpH, cpPc] at hq; done)
+      | (cases hq; done)
+      | (have hq' : cpH s.h = true := by rw [hpc]; exact hq
+         obtain ⟨c, hc, hm⟩ := hcph hq'
+         first | exact ⟨c, hc, hm⟩ | exact ⟨c, hc, List.mem_append_left _ hm⟩)
+      | (simp only [cpH, cpPc] at hq
+         rcases hr : cltReadable s with _ | c
+         · rw [hr] at hq; simp at hq
+         · exact ⟨c, cltReadable_some hr, cltReadable_mem hr⟩)
+
+theorem sigAdj_append {pc : SPc} {l : List Kind} (hok : sOk l pc) (x : Kind) (c : TaskId) :
+    sigAdj pc (l ++ [x]) c = sigAdj pc l c := by
+  cases pc with
+  | stFs st p =>
+    cases p with
+    | signal =>
+      simp only [sOk] at hok
+      simp only [sigAdj, List.getElem?_append_left (tagAt_lt hok)]
+    | _ => rfl
+  | _ => rfl
+
+theorem sigAdj_set_sync {pc : SPc} {l : List Kind} {k : Nat} {o : Tid} {a b : Bool} {ph : Nat}
+    (hk : l[k]? = some (.sync o a b ph)) (new : Kind) (c : TaskId) (hnew : ∀ tg r, new ≠ .st tg r) :
+    sigAdj pc (l.set k new) c = sigAdj pc l c := by
+  cases pc with
+  | stFs st p =>
+    cases p with
+    | signal =>
+      simp only [sigAdj]
+      by_cases e : st = k
+      · subst e
+        have h1 : (l.set st new)[st]? = some new := by rw [List.getElem?_set]; simp [getElem?_lt hk]
+        rw [h1, hk]
+        have : ¬ (some new = some (Kind.st c false)) := by intro h; cases h; exact hnew _ _ rfl
+        simp [this]
+      · rw [List.getElem?_set]; simp [Ne.symm e]
+    | _ => rfl
+  | _ => rfl
+
+theorem stepF_L {s s' : State} {i : Nat} (hK : InvK s) (hC : InvC s) (h : InvL s)
+    (hs : stepF s i = some s') : InvL s' := by
+  obtain ⟨hone, hcps, hcph⟩ := h
+  refine ⟨?_, ?_, ?_⟩
+  · f_cases hs s i f hf hpc
+    all_goals (have hsok := hK.fref i f hf; simp only [hpc, fOk] at hsok)
+    all_goals intro c hc
+    all_goals first
+      | (have h1 := hone c hc
+         simp only [tok] at h1 ⊢
+         rw [(spawnTok_set hf _ c).1]
+         have hge := (spawnTok_set hf f c).2
+         simp only [hpc] at hge ⊢
+         trace_state
+         sorry)
+      | skip
+    all_goals sorry
+  · sorry
+  · sorry
 
 end Pox.Handoff
